@@ -132,7 +132,8 @@ def run(ctx: Context, rep) -> None:
     ok = False
     if len(loads) == 1:
         rel = ctx.arg(loads[0], 1, "relative_path_self")
-        ok = rel is not None and ast.unparse(rel) == \
+        from sa.norm import canon
+        ok = rel is not None and canon(cs, rel) == \
             "split / self._relative_path_from_split / 'shards_list.json'"
         g = parent(parent(loads[0]))
         ok = ok and isinstance(g, ast.If) and isinstance(
